@@ -50,6 +50,7 @@ FIXED = [
     "fixed: property=C14 ee17f4d a zero loop step given through an int variable (`int s = 0; for i in 0..5 step s`) was accepted",
     "fixed: property=C14 033b49c a bare bundle comparison in an assignment (`lamp.enable = bundle > 0;`) was not diagnosed (unrelated DataFormatError or acceptance)",
     "fixed: property=C14 dc6fac7 `chest.output[\"signal-W\"]` (reserved signal in a bundle selection) was accepted",
+    "fixed: property=C01 832242e `(c : k) && x` / `(c : k) || (d : j)` with constants other than 0/1 took the boolean shortcut (x*y, (x+y)>0) and yielded k or 0 instead of 1",
     "fixed: property=C01 7701d37 a comparison with an integer literal on the left (`3 < a`) was emitted as `signal-0 < a`",
 ]
 
